@@ -47,6 +47,18 @@ def fixed_cases():
     for t in (t1, t2):
         for i in range(1, len(t)):
             out.append((d, t[:i], [[("read", None)], []], True))
+    # a chunk that is not closed by CRLF (junk after its data, or the stream ends there), with chunks larger and smaller than
+    # the sizes the application reads with: how many body bytes it has been given when the stream is refused is part of
+    # "every body byte ... and the point at which the stream is rejected"
+    for size in (1, 10, 1500, 3072):
+        data = bytes((i * 11 + 1) % 251 for i in range(size))
+        head = b"POST /c HTTP/1.1\r\nTransfer-Encoding: chunked\r\n\r\n"
+        for bad in (b"XX", b"\rX", b"\n\r", b""):
+            for pre in (b"", b"4\r\nabcd\r\n"):
+                stream = head + pre + (b"%x\r\n" % size) + data + bad + (b"0\r\n\r\n" if bad else b"")
+                for prog in ([("read", 1024)] * 5, [("read", 1)] * 4 + [("read", None)], [("readline", None)] * 3, [("read", size)] + [("read", 7)] * 2,
+                             [("iter", None)] if False else [("read", 100), ("readline", 50), ("read", None)]):
+                    out.append((d, stream, [list(prog), []], True))
     return out
 
 
